@@ -1052,6 +1052,7 @@ connect_ex_start:
 static int
 tp_task_connect_ex_start(tp_task_p tptask, int do_connect) {
 	int error;
+	size_t addrs_cur;
 	uint64_t time_limit_ms = 0, time_run_ms;
 	struct timespec	time_now;
 	tp_task_conn_prms_p conn_prms;
@@ -1111,9 +1112,11 @@ try_connect:
 	    SO_F_NONBLOCK, &tptask->tp_data.ident);
 	if (0 != error) /* Cant create socket. */
 		return (error);
+	addrs_cur = tptask->tot_transfered_size;
 	error = tp_task_start(tptask, TP_EV_WRITE,
 	    TP_F_ONESHOT, tptask->timeout, tptask->offset,
 	    tptask->buf, tptask->cb_func);
+	tptask->tot_transfered_size = addrs_cur; /* tp_task_start_ex() zeroes it. */
 	if (0 != error) {
 		close((int)tptask->tp_data.ident);
 		tptask->tp_data.ident = (uintptr_t)-1;
